@@ -305,75 +305,8 @@ func c09(c *core.Ctx) {
 	subP, unackP, qP, sessP := "persistence/subscription/redis", "persistence/unack/redis", "persistence/queue/redis", "persistence/session/redis"
 
 	// ---- R1 persist before apply
-	type mirrorFn struct {
-		pkg, fn string
-	}
-	for _, mf := range []mirrorFn{{subP, "(*sub).Subscribe"}, {subP, "(*sub).Unsubscribe"}, {subP, "(*sub).UnsubscribeAll"}, {unackP, "(*Store).Set"}, {unackP, "(*Store).Remove"}} {
-		f := p.Func(mf.pkg, mf.fn)
-		c.Analysed(fname(f))
-		cmds := redisCmds(f, false)
-		var muts []ssa.Instruction
-		ssax.Instrs(f, false, func(_ *ssa.Function, in ssa.Instruction) {
-			switch x := in.(type) {
-			case *ssa.MapUpdate:
-				if ssax.AnyIn(ssax.Backward(x.Map), func(v ssa.Value) bool { return strings.HasPrefix(ssax.FieldOwner(v), mf.pkg+".") }) {
-					muts = append(muts, in)
-				}
-			case *ssa.Call:
-				if b, ok := x.Call.Value.(*ssa.Builtin); ok && b.Name() == "delete" {
-					if ssax.AnyIn(ssax.Backward(x.Call.Args[0]), func(v ssa.Value) bool { return strings.HasPrefix(ssax.FieldOwner(v), mf.pkg+".") }) {
-						muts = append(muts, in)
-					}
-				}
-				if sc := x.Call.StaticCallee(); sc != nil && strings.HasSuffix(sc.Name(), "Locked") && ssax.TypeName(sc.Signature.Recv().Type()) == "persistence/subscription/mem.TrieDB" && sc.Name() != "IterateLocked" && !strings.HasPrefix(sc.Name(), "Get") {
-					muts = append(muts, in)
-				}
-			}
-		})
-		key := strings.TrimPrefix(mf.pkg, "persistence/") + "|" + mf.fn
-		if len(muts) == 0 {
-			c.Violation("C09.R1", key+"|mirror", fpos(c, f), "the in-memory mirror is no longer updated: the running broker and the stored state diverge")
-			continue
-		}
-		// the durability point: the last Do, or the Flush of a pipeline
-		var points []redisCmd
-		for _, cm := range cmds {
-			if cm.Method == "Flush" || cm.Method == "Do" {
-				points = append(points, cm)
-			}
-		}
-		for i, m := range muts {
-			k := fmt.Sprintf("%s|mutation#%d", key, i)
-			var dom *redisCmd
-			for j := range points {
-				if ssax.Dominates(points[j].Instr, m) {
-					dom = &points[j]
-				}
-			}
-			if !c.Check(dom != nil, "C09.R1", k+"|after-command", ipos(c, m), "mirror changed after the redis command", "the in-memory mirror is changed before (or without) the redis command: if the command fails or the broker dies in between, memory and redis disagree (e.g. a packet id is treated as a duplicate although it was never recorded)") {
-				continue
-			}
-			errv := ssax.ResultValue(dom.Instr, errResultIndex(dom.Instr))
-			if errv == nil {
-				c.Violation("C09.R1", k+"|error-checked", ipos(c, dom.Instr), "the error of the redis command is discarded before the mirror is changed")
-				continue
-			}
-			pins := map[ssa.Value]ssax.AV{errv: ssax.AVNonNil}
-			// helper conversions (redis.Int(reply, err)) forward the error
-			ssax.Instrs(f, false, func(_ *ssa.Function, in ssa.Instruction) {
-				if ex, ok := in.(*ssa.Extract); ok {
-					if call, isCall := ex.Tuple.(*ssa.Call); isCall && call.Call.StaticCallee() != nil && call.Call.StaticCallee().Pkg != nil && call.Call.StaticCallee().Pkg.Pkg.Path() == "github.com/gomodule/redigo/redis" {
-						for _, a := range call.Call.Args {
-							if a == errv && ex.Type().String() == "error" {
-								pins[ex] = ssax.AVNonNil
-							}
-						}
-					}
-				}
-			})
-			r := ssax.Analyze(f, ssax.ReachOpts{Pins: pins, Start: dom.Instr})
-			c.Check(!r.Reachable(m), "C09.R1", k+"|only-on-success", ipos(c, m), "mirror changed only when the command succeeded", "the in-memory mirror is changed although the redis command failed")
-		}
+	for _, mf := range [][2]string{{subP, "(*sub).Subscribe"}, {subP, "(*sub).Unsubscribe"}, {subP, "(*sub).UnsubscribeAll"}, {unackP, "(*Store).Set"}, {unackP, "(*Store).Remove"}} {
+		persistBeforeApply(c, "C09.R1", mf[0], mf[1])
 	}
 
 	// ---- R2 codecs
@@ -387,7 +320,9 @@ func c09(c *core.Ctx) {
 		ssax.Instrs(enc, false, func(_ *ssa.Function, in ssa.Instruction) {
 			if call, ok := in.(*ssa.Call); ok && writeKind(ssax.ResolveCallee(&call.Call)) != "" {
 				arg := call.Call.Args[len(call.Call.Args)-1]
-				for x := range ssax.BackwardOpt(arg, func(cl *ssa.Call) bool { return cl.Call.StaticCallee() != nil && cl.Call.StaticCallee().Name() == "DecodeRemainLength" }) {
+				for x := range ssax.BackwardOpt(arg, func(cl *ssa.Call) bool {
+					return cl.Call.StaticCallee() != nil && cl.Call.StaticCallee().Name() == "DecodeRemainLength"
+				}) {
 					if o := ssax.FieldOwner(x); strings.HasPrefix(o, "gmqtt.Message.") {
 						covered[strings.TrimPrefix(o, "gmqtt.Message.")] = true
 					}
@@ -782,4 +717,77 @@ func c09(c *core.Ctx) {
 		c.Check(okV || loads, "C09.R7", "unack.Set|duplicate-from-redis", fpos(c, f), "the duplicate verdict takes redis into account", "the redis unack store decides 'duplicate' from its process-local cache only (the HSET reply is ignored and Init loads nothing): after a broker restart a retransmitted QoS 2 PUBLISH awaiting PUBREL is delivered again")
 	}
 	_ = fl
+}
+
+// persistBeforeApply: every mutation of the in-memory mirror of a redis-backed store is made only after the redis command succeeded.
+func persistBeforeApply(c *core.Ctx, rule, pkg, fnName string) {
+	p := c.P
+	mf := struct{ pkg, fn string }{pkg, fnName}
+	for once := true; once; once = false {
+		f := p.Func(mf.pkg, mf.fn)
+		c.Analysed(fname(f))
+		cmds := redisCmds(f, false)
+		var muts []ssa.Instruction
+		ssax.Instrs(f, false, func(_ *ssa.Function, in ssa.Instruction) {
+			switch x := in.(type) {
+			case *ssa.MapUpdate:
+				if ssax.AnyIn(ssax.Backward(x.Map), func(v ssa.Value) bool { return strings.HasPrefix(ssax.FieldOwner(v), mf.pkg+".") }) {
+					muts = append(muts, in)
+				}
+			case *ssa.Call:
+				if b, ok := x.Call.Value.(*ssa.Builtin); ok && b.Name() == "delete" {
+					if ssax.AnyIn(ssax.Backward(x.Call.Args[0]), func(v ssa.Value) bool { return strings.HasPrefix(ssax.FieldOwner(v), mf.pkg+".") }) {
+						muts = append(muts, in)
+					}
+				}
+				if sc := x.Call.StaticCallee(); sc != nil && strings.HasSuffix(sc.Name(), "Locked") && ssax.TypeName(sc.Signature.Recv().Type()) == "persistence/subscription/mem.TrieDB" && sc.Name() != "IterateLocked" && !strings.HasPrefix(sc.Name(), "Get") {
+					muts = append(muts, in)
+				}
+			}
+		})
+		key := strings.TrimPrefix(mf.pkg, "persistence/") + "|" + mf.fn
+		if len(muts) == 0 {
+			c.Violation(rule, key+"|mirror", fpos(c, f), "the in-memory mirror is no longer updated: the running broker and the stored state diverge")
+			continue
+		}
+		// the durability point: the last Do, or the Flush of a pipeline
+		var points []redisCmd
+		for _, cm := range cmds {
+			if cm.Method == "Flush" || cm.Method == "Do" {
+				points = append(points, cm)
+			}
+		}
+		for i, m := range muts {
+			k := fmt.Sprintf("%s|mutation#%d", key, i)
+			var dom *redisCmd
+			for j := range points {
+				if ssax.Dominates(points[j].Instr, m) {
+					dom = &points[j]
+				}
+			}
+			if !c.Check(dom != nil, rule, k+"|after-command", ipos(c, m), "mirror changed after the redis command", "the in-memory mirror is changed before (or without) the redis command: if the command fails or the broker dies in between, memory and redis disagree (e.g. a packet id is treated as a duplicate although it was never recorded)") {
+				continue
+			}
+			errv := ssax.ResultValue(dom.Instr, errResultIndex(dom.Instr))
+			if errv == nil {
+				c.Violation(rule, k+"|error-checked", ipos(c, dom.Instr), "the error of the redis command is discarded before the mirror is changed")
+				continue
+			}
+			pins := map[ssa.Value]ssax.AV{errv: ssax.AVNonNil}
+			// helper conversions (redis.Int(reply, err)) forward the error
+			ssax.Instrs(f, false, func(_ *ssa.Function, in ssa.Instruction) {
+				if ex, ok := in.(*ssa.Extract); ok {
+					if call, isCall := ex.Tuple.(*ssa.Call); isCall && call.Call.StaticCallee() != nil && call.Call.StaticCallee().Pkg != nil && call.Call.StaticCallee().Pkg.Pkg.Path() == "github.com/gomodule/redigo/redis" {
+						for _, a := range call.Call.Args {
+							if a == errv && ex.Type().String() == "error" {
+								pins[ex] = ssax.AVNonNil
+							}
+						}
+					}
+				}
+			})
+			r := ssax.Analyze(f, ssax.ReachOpts{Pins: pins, Start: dom.Instr})
+			c.Check(!r.Reachable(m), rule, k+"|only-on-success", ipos(c, m), "mirror changed only when the command succeeded", "the in-memory mirror is changed although the redis command failed")
+		}
+	}
 }
